@@ -3,7 +3,9 @@
  * ovnisort's result does not depend on how the kernel chops its writes. */
 #define _GNU_SOURCE
 #include <dlfcn.h>
+#include <stdio.h>
 #include <stdlib.h>
+#include <string.h>
 #include <sys/stat.h>
 #include <sys/types.h>
 #include <unistd.h>
@@ -18,7 +20,24 @@ static size_t cap(int fd, size_t n)
 	struct stat st;
 	if (max <= 0 || fstat(fd, &st) != 0 || !S_ISREG(st.st_mode))
 		return n;
+	/* only the stream files of a trace */
+	char link[64], path[4096];
+	snprintf(link, sizeof(link), "/proc/self/fd/%d", fd);
+	ssize_t k = readlink(link, path, sizeof(path) - 1);
+	if (k < 10)
+		return n;
+	path[k] = 0;
+	if (strcmp(path + k - 10, "stream.obs") != 0)
+		return n;
 	return n > (size_t) max ? (size_t) max : n;
+}
+
+ssize_t write(int fd, const void *buf, size_t n)
+{
+	static ssize_t (*real)(int, const void *, size_t);
+	if (!real)
+		real = (ssize_t (*)(int, const void *, size_t)) dlsym(RTLD_NEXT, "write");
+	return real(fd, buf, cap(fd, n));
 }
 
 ssize_t pwrite(int fd, const void *buf, size_t n, off_t off)
